@@ -36,7 +36,7 @@ ID = "C20"
 PROP_FILE = "props/C20.v"
 MODEL_TARGETS = ["theories/CommSumm.vo", "theories/JobIds.vo"]
 THEOREMS = ["C20_summarize_spec", "C20_hull", "C20_one_slice_per_sequence", "C20_others_unchanged",
-            "C20_key_is_file_and_number", "C20_inputs_have_distinct_jobs", "C20_job_ids_always_assigned",
+            "C20_key_is_file_and_number", "C20_inputs_have_distinct_jobs", "C20_same_path_same_job", "C20_job_ids_always_assigned",
             "C20_two_phase", "C20_error_branch"]
 ALLOWED_AXIOMS = []
 MANIFEST = {
@@ -464,7 +464,9 @@ def drive_e2e(sc, workdir=None):
         paths = write_files(sc, d)
         inp = ",".join(paths)
         res = {"jobs": real_job_ids(inp), "path_hashes": [zlib.crc32(p.encode()) % 10000 for p in paths],
-               "mirror_jobs": e2e.job_ids(paths)}
+               "mirror_jobs": e2e.job_ids(paths),
+               # the first input listed once more at the end: one job, the same id (C20_same_path_same_job)
+               "jobs_dup": real_job_ids(inp + "," + paths[0])}
         base = ["-i", inp, "-D", "0", "--disable_tb"] + list(sc.get("opts", []))
         if "@LOG" in base:          # a compiler log switches the utilization stages on (default counter rcu_util)
             log = os.path.join(d, "compiler.log")
@@ -967,6 +969,12 @@ def run(ctx):
                                                                    for k, h in enumerate(res["path_hashes"])])),
                             enc.V(res["jobs"])))
             idcases.append(c)
+            if not isinstance(res.get("jobs_dup"), enc.Err) and res.get("jobs_dup") is not None:
+                hs = res["path_hashes"]
+                idterms.append((enc.P(enc.Z(e2e.TOP_LEVEL_JOB),
+                                      enc.L([enc.P(enc.N(k + 1), enc.Z(h)) for k, h in enumerate(hs)] +
+                                            [enc.P(enc.N(1), enc.Z(hs[0]))])), enc.V(res["jobs_dup"])))
+                idcases.append(dict(c, note="first input listed twice"))
             if len(set(res["path_hashes"])) < len(res["path_hashes"]):
                 _hist(dist, "e2e_runs_with_colliding_path_hashes")
         if isinstance(res["a"], enc.Err):
